@@ -158,6 +158,7 @@ class Gen:
         self.failed = {}        # key -> reason
         self.pending = []
         self.fids = {}
+        self.ctags = {}
         self.in_progress = set()
 
     # ---------------------------------------------------------------- function registry
@@ -587,6 +588,31 @@ class ExprMixin:
                 subs.append(self.expr(ctx, n))
         return [x for x in subs if x != 'ENone']
 
+    def ctag(self, ci):
+        k = f'{ci.mod.key}.{ci.name}'
+        if k not in self.ctags:
+            self.ctags[k] = len(self.ctags) + 1
+        return self.ctags[k]
+
+    def impl_table(self, m, classes=None):
+        """[(class, key of the function implementing method m for instances of exactly that class)]"""
+        out = []
+        for mod in self.mods.values():
+            for c in mod.classes.values():
+                if classes is not None and c not in classes:
+                    continue
+                hit = self.find_member(c, m, ('methods',))
+                if hit:
+                    out.append((c, self.fkey(hit[0].mod, hit[0].name, m)))
+        return out
+
+    def emeth(self, ctx, cands, self_expr, args):
+        for _, k in cands:
+            self.request(k)
+            ctx.callees.add(k)
+        cs = cl([f'({self.ctag(c)}, {self.fid(k)})' for c, k in cands])
+        return f'(EMeth {cs} {self_expr} {cl([f"({cq(p)}, {e})" for p, e in args if p != "self"])})'
+
     def is_cached(self, key):
         lk = self.lookup(key)
         if lk is None or lk[2] is None:
@@ -682,7 +708,7 @@ class CallMixin:
         args = self.bind(ctx, [ik], call)
         self.request(ik)
         ctx.callees.add(ik)
-        return (f'(ENew {self.new_alloc(ctx)} {cl([self.fid(ik)])} '
+        return (f'(ENew {self.new_alloc(ctx)} {self.ctag(ci)} {cl([self.fid(ik)])} '
                 f'{cl([f"({cq(p)}, {e})" for p, e in args])})')
 
     def all_args(self, ctx, call, skip=()):
@@ -807,12 +833,12 @@ class CallMixin:
             alts.append(self.maybe(ctx, call, obj, M_MAYBE[m], m))
         elif m in M_FRESH:
             alts.append(self.fresh(ctx, [obj] + self.all_args(ctx, call)))
-        cands = self.methods_named(m)
+        cands = self.impl_table(m)
         if alts:
-            cands = [k for k in cands if k.split('.')[0] == ctx.mod.key]    # same-module classes only
+            cands = [(c, k) for c, k in cands if c.mod is ctx.mod]    # same-module classes only
         if cands and m not in M_MUT:
-            args = self.bind(ctx, cands, call, self_expr=obj)
-            alts.append(self.ecall(ctx, cands, args))
+            args = self.bind(ctx, [k for _, k in cands], call, self_expr=obj)
+            alts.append(self.emeth(ctx, cands, obj, args))
         if not alts:
             raise Unsupported(f'unknown method .{m}() (line {call.lineno})')
         return alts[0] if len(alts) == 1 else f'(EUnion {cl(alts)})'
@@ -830,8 +856,8 @@ class CallMixin:
             if 'classmethod' in decos:
                 return self.ecall(ctx, keys, self.bind(ctx, keys, call))
             raise Unsupported(f'unbound call of {ci.name}.{m} (line {call.lineno})')
-        keys = self.dispatch(ci, m)
-        return self.ecall(ctx, keys, self.bind(ctx, keys, call, self_expr=self_expr))
+        cands = self.impl_table(m, [ci] + self.subclasses(ci))
+        return self.emeth(ctx, cands, self_expr, self.bind(ctx, [k for _, k in cands], call, self_expr=self_expr))
 
     def e_Call(self, ctx, call):
         f = call.func
@@ -883,9 +909,10 @@ class CallMixin:
                 cname, mname = CALLABLE_ATTRS[f.attr].split('.')
                 for mod in self.mods.values():
                     if cname in mod.classes:
-                        keys = self.dispatch(mod.classes[cname], mname)
+                        base = mod.classes[cname]
+                        cands = self.impl_table(mname, [base] + self.subclasses(base))
                         obj = self.expr(ctx, f)
-                        return self.ecall(ctx, keys, self.bind(ctx, keys, call, self_expr=obj))
+                        return self.emeth(ctx, cands, obj, self.bind(ctx, [k for _, k in cands], call, self_expr=obj))
             return self.method(ctx, call, v, f.attr)
         if isinstance(f, ast.Subscript) and isinstance(f.value, ast.Name) and f.value.id in ctx.locals:
             table = [n for n in ast.walk(ctx.fn) if isinstance(n, ast.Assign) and len(n.targets) == 1
@@ -953,11 +980,11 @@ class StmtMixin:
             ob = self.expr(ctx, t.value)
             ix = t.slice
             # a class of this module with its own __setitem__ may be the receiver
-            user = [k for k in self.methods_named('__setitem__') if k.split('.')[0] == ctx.mod.key]
+            user = [(c, k) for c, k in self.impl_table('__setitem__') if c.mod is ctx.mod]
             extra = []
             if user:
-                pos = self.signature(user[0])[0]
-                extra = [f'SExpr {self.ecall(ctx, user, [("self", ob), (pos[-1], val)])}']
+                pos = self.signature(user[0][1])[0]
+                extra = [f'SExpr {self.emeth(ctx, user, ob, [(pos[-1], val)])}']
             if isinstance(ix, ast.Constant) and isinstance(ix.value, str):
                 return self.flush(ctx) + [f'SSetField {ob} {cq(ix.value)} {val}'] + extra
             effs = self.index_subs(ctx, ix)
@@ -1252,7 +1279,7 @@ class Translator(Gen, ExprMixin, CallMixin, StmtMixin):
                                                     'globals_closure', 'decorators', 'line', 'module', 'class')}
                              for k, v in self.funs.items()},
                'failed': self.failed, 'sites': self.sites, 'globals': self.globals, 'classes': classes,
-               'loop_sites': self.loop_sites, 'names': NAMES, 'fids': self.fids,
+               'loop_sites': self.loop_sites, 'names': NAMES, 'fids': self.fids, 'class_tags': self.ctags,
                'depends_on_failed': {k: self.reaches_failed(k) for k in self.funs if self.reaches_failed(k)}}
         with open(os.path.join(out_dir, 'alias_report.json'), 'w') as fh:
             json.dump(rep, fh, indent=1)
